@@ -253,9 +253,10 @@ func TestC11(t *testing.T) {
 			p := protos.Build(id)
 			maxLen := 1
 			if full[p.Family()] {
-				maxLen = 2
 				if thorough {
 					maxLen = 3
+				} else if p.Family() == "chain-sync/NtN" || p.Family() == "tx-submission/NtN" {
+					maxLen = 2
 				}
 			} else if thorough {
 				maxLen = 2
